@@ -116,6 +116,27 @@ class M(Model):
             return None  # two vehicles chose the same customer: tie-break is undocumented
         return bool(int(np.asarray(s2.vehicles.positions)[k]) != v)
 
+    # ------------------------------------------------------------------ plan bias ('solve' mode)
+    def solve_action(self, s, r=0):
+        """Constructive joint move: every vehicle drives to a legal customer nobody else picked in this
+        step (r chooses which), or to the depot when none is left; with probability ~1/4 per vehicle it
+        idles/returns to the depot instead, so that completion happens at varied steps (also exactly at the
+        step limit) and 'everybody at the depot with demand left' states occur.  Uniform legal play mostly
+        keeps the vehicles at the depot for per-vehicle masks whose first entry is the depot."""
+        leg = self.legal(s)
+        r = int(r)
+        taken, out = set(), []
+        for v in range(self.V):
+            cust = [int(c) for c in np.flatnonzero(leg[v]) if c > 0 and int(c) not in taken]
+            idle = ((r >> (2 * v + 3)) & 3) == 0
+            if cust and not idle:
+                c = cust[(r // (5 ** v)) % len(cust)]
+                taken.add(c)
+                out.append(c)
+            else:
+                out.append(DEPOT)
+        return np.asarray(out, np.int64)
+
     # ------------------------------------------------------------------ C06
     def constraints(self, s):
         out = []
